@@ -1,12 +1,26 @@
 /-
 C14 — untrusted paths and filenames cannot escape the trusted directory.
-Property theorems only (helper lemmas live in Lemmas/Paths.lean).
+Property theorems only (helper lemmas: Lemmas/Paths.lean, PathsRefuse.lean, PathsGlue.lean, PathsNt.lean).
 
 Vocabulary: `segments s` = the components of `s.split("/")` other than `""` and `"."`;
 `initialSlashes s` = normpath's root class of `s` (0 relative, 1 `/`, 2 `//`);
-`Clean c` = `c` is a non-empty component other than `.` and `..` that contains no `/`.
+`Clean c` = `c` is a non-empty component other than `.` and `..` that contains no `/`;
+`Inside d p` = the normalised segments of `d` are a prefix of those of `p`, only clean components
+follow, same root class; `Refused alts f` = `f` is non-empty and absolute / climbing / contains an
+alternative separator after normalisation; `ServedFrom isfile e path p` = how a served file `p`
+relates to the export `e` that produced it (Lemmas/PathsGlue.lean).
+
+Outside the model, hence outside every theorem here (also listed in the check's `assumptions`):
+the file system itself - symbolic links, case-insensitive or normalising file systems, races between
+`os.path.isfile` and `open` -; containment is *lexical*. `os.path.isfile`, `is_allowed`/`fnmatch`,
+`importlib`'s resource reader and `unicodedata.normalize("NFKD", ·)` are opaque parameters.
+`FileStorage.save(dst)` uses `dst` as given: the property only speaks about `secure_filename`,
+which the application has to call itself; nothing of `FileStorage` is modelled.
 -/
 import WzVerif.Lemmas.Paths
+import WzVerif.Lemmas.PathsRefuse
+import WzVerif.Lemmas.PathsGlue
+import WzVerif.Lemmas.PathsNt
 import WzVerif.Model.StaticFiles
 import WzVerif.Gen.StaticGlue
 namespace Wz.Props.C14
@@ -93,75 +107,254 @@ theorem safe_join_refuses (alts : List Char) (d : Str) (pre post : List Str) (f 
 
 example : safeJoinWith [] "/srv".toList ["a".toList, "b/../..".toList] = none := by decide
 
-/-- `p` is lexically inside directory `d`: the normalised segments of `d` are a prefix of those of
-`p`, what follows is clean (no `..`), and the root class is the same -/
-def Inside (d p : Str) : Prop :=
-  ∃ extra, segments (normpath p) = segments (normpath d) ++ extra ∧ (∀ c ∈ extra, Clean c) ∧
-    initialSlashes (normpath p) = initialSlashes (normpath d)
+/-- **Exactly what `safe_join` refuses.** For every directory, every number of components and every
+alternative-separator list: the result is `None` iff some component is refused, and a component is
+refused iff it is not the empty string and (it is absolute, or the first segment of its normal form
+is `..` - i.e. it climbs above where it starts -, or its normal form contains an alternative
+separator). Nothing else is refused: `.`, `""`, `~`, `C:`, backslashes (POSIX), percent-encoded
+dots, NUL and names with dots are all accepted; `a/../..`, `/x`, `//x`, `..` are refused wherever
+they stand. -/
+theorem safe_join_refuses_iff (alts : List Char) (d : Str) (ps : List Str) :
+    safeJoinWith alts d ps = none ↔ ∃ f ∈ ps, Refused alts f := by
+  unfold safeJoinWith
+  simp only [Option.map_eq_none_iff]
+  exact checkAll_none_iff alts ps
+
+example : Refused [] "a/../..".toList := by decide
+example : Refused ['\\'] "a\\b".toList := by decide
+example : ∀ f ∈ ["..a", "a..", "...", ".", "", "~", "C:", "C:\\x", "\\..\\", "%2e%2e", "%2e%2e/x", "a\x00b",
+    "a/../b", "./"].map String.toList, ¬ Refused [] f := by decide
+example : ∀ f ∈ ["..", "../", "../a", "a/../..", "./..", "/", "//", "/a", "//a", ".//../x"].map String.toList,
+    Refused [] f := by decide
+
+/-- **Exactly what `safe_join` returns otherwise**: when no component is refused, the result is
+`posixpath.join(directory or ".", *components)` with every non-empty component replaced by its
+`normpath` - nothing else is rewritten, decoded or dropped. -/
+theorem safe_join_result (alts : List Char) (d : Str) (ps : List Str)
+    (h : ∀ f ∈ ps, ¬ Refused alts f) :
+    safeJoinWith alts d ps = some (join (if d = [] then dot else d) (ps.map normOrEmpty)) := by
+  unfold safeJoinWith
+  rw [checkAll_some h]
+  rfl
+
+example : ∀ f ∈ ["a/./b".toList, [], "%2e%2e".toList], ¬ Refused [] f := by decide
+example : safeJoinWith [] [] ["a/./b".toList, [], "%2e%2e".toList] = some "./a/b/%2e%2e".toList := by decide
 
 /-- **The static-file helpers never open a file outside their root.** For every request path (any
-text: what is left after percent-decoding, incl. `..`, `//`, NUL, backslashes), every directory and
-every state of the file system (`isfile` is an arbitrary predicate):
-* whatever `send_from_directory` sends lies inside `directory` (and is a file);
-* whatever `SharedDataMiddleware` serves comes from one of its exports - `(search_path, directory)`
-  or `(search_path, (package, package_path))` - and either lies inside that directory / package path
-  or is a directory export itself requested by its exact key. -/
-theorem served_path_inside_root (isfile : Str → Bool) :
-    (∀ d path p, sendFromDirectory isfile d path = some p → Inside d p ∧ isfile p = true) ∧
-    (∀ exports path p, sharedData isfile exports path = some p →
-      ∃ e ∈ exports, isfile p = true ∧ ((e.1 = path ∧ e.2 = .dir p) ∨ Inside e.2.root p)) := by
-  have hjoin : ∀ d rel p, joinIfFile isfile d rel = some p → Inside d p ∧ isfile p = true := by
-    intro d rel p h
-    unfold joinIfFile at h
-    cases hj : safeJoin d [rel] with
-    | none => simp [hj] at h
-    | some q =>
-      simp only [hj] at h
-      split at h
-      · rename_i hf
-        cases h
-        exact ⟨safe_join_contained _ d [rel] _ hj, hf⟩
-      · cases h
-  have hload : ∀ ex rel p, loaderOf isfile ex (some rel) = some p → Inside ex.root p ∧ isfile p = true := by
-    intro ex rel p h
-    cases ex with
-    | dir d => exact hjoin d rel p h
-    | pkg pp => exact hjoin pp rel p h
+text: what is left after percent-decoding, incl. `..`, `//`, NUL, backslashes), every directory,
+every `is_allowed` predicate and every state of the file system (`isfile` is an arbitrary predicate):
+* whatever `send_from_directory` sends is exactly `safe_join(directory, path)`, lies inside
+  `directory`, and is a file; otherwise NotFound;
+* whatever `SharedDataMiddleware` serves comes from one of its exports and is related to it as
+  `ServedFrom` says: a directory export serves `safe_join(directory, rest)` (inside the directory,
+  `rest` = the request path behind `key/`, cleaned by nothing but `safe_join`) or the directory value
+  itself under its exact key; a single-file export serves that file; a package export serves
+  `pkgDir/safe_join(package_path, rest)`, inside `pkgDir/package_path`. A path outside every export
+  root is never served. -/
+theorem served_path_inside_root (isfile allowed : Str → Bool) :
+    (∀ d path p, sendFromDirectory isfile d path = some p →
+      safeJoin d [path] = some p ∧ Inside d p ∧ isfile p = true) ∧
+    (∀ exports path p, sharedData isfile allowed exports path = some p →
+      ∃ e ∈ exports, ServedFrom isfile e path p) := by
   refine ⟨?_, ?_⟩
   · intro d path p h
-    exact hjoin d path p h
-  · intro exports
-    induction exports with
-    | nil => intro path p h; simp [sharedData] at h
-    | cons e rest ih =>
-      obtain ⟨search, ex⟩ := e
-      intro path p h
-      simp only [sharedData] at h
-      generalize (if search.getLast? = some '/' then search else search ++ ['/']) = sp at h
+    obtain ⟨h1, h2⟩ := joinIfFile_spec h
+    exact ⟨h1, safeJoin_inside h1, h2⟩
+  · intro exports path p h
+    unfold sharedData at h
+    cases hf : findExport isfile exports path with
+    | none => simp [hf] at h
+    | some r =>
+      obtain ⟨name, f⟩ := r
+      simp only [hf] at h
       split at h
-      · rename_i f hexact
-        cases h
-        split at hexact
-        · rename_i heq
-          cases ex with
-          | dir d =>
-            simp only [loaderOf, directoryLoader] at hexact
-            split at hexact
-            · rename_i hf
-              cases hexact
-              exact ⟨(search, .dir _), by simp, hf, Or.inl ⟨heq, rfl⟩⟩
-            · cases hexact
-          | pkg pp => simp [loaderOf, packageLoader] at hexact
-        · cases hexact
-      · split at h
-        · rename_i f hsub
+      · cases h
+        obtain ⟨pre, e, post, rfl, _, he⟩ := (findExport_eq_some_iff isfile exports path (name, p)).mp hf
+        exact ⟨e, by simp, tryExport_served he⟩
+      · cases h
+
+example : sendFromDirectory (fun _ => true) "/srv/root".toList "a/../b.txt".toList
+    = some "/srv/root/b.txt".toList := by decide
+example : sendFromDirectory (fun _ => true) "/srv/root".toList "../secret".toList = none := by decide
+example : sharedData (fun p => p == "/srv/root/x.css".toList) (fun _ => true)
+    [("/static".toList, .dir "/srv/root".toList)] "/static/x.css".toList = some "/srv/root/x.css".toList := by decide
+example : sharedData (fun _ => true) (fun _ => true) [("/static".toList, .dir "/srv/root".toList)]
+    "/static/../../etc/passwd".toList = none := by decide
+/-- a directory exported at the mount point `/`: a request path with two leading slashes leaves an
+absolute remainder, which `safe_join` refuses -/
+example : sharedData (fun _ => true) (fun _ => true) [("/".toList, .dir "/srv/root".toList)]
+    "//etc/passwd".toList = none := by decide
+/-- backslashes are ordinary characters on POSIX: the package loader hands them through unchanged -/
+example : sharedData (fun _ => true) (fun _ => true) [("/static".toList, .pkg "/pkg".toList "static".toList)]
+    "/static/..\\..\\secret.txt".toList = some "/pkg/static/..\\..\\secret.txt".toList := by decide
+/-- a single-file export answers for its key and for everything below it -/
+example : sharedData (fun _ => false) (fun _ => true) [("/robots.txt".toList, .file "/srv/r.txt".toList)]
+    "/robots.txt/../../x".toList = some "/srv/r.txt".toList := by decide
+
+/-- **Which export answers** (the loop of `SharedDataMiddleware.__call__`, read off the code): the
+exports are tried in the order of `self.exports` (dict / list order as given to the constructor -
+not longest-prefix); the *first* export whose loader yields a file wins and ends the loop; an
+export that matches the path but has no such file (or refuses it) does not stop later exports from
+being tried; if the winner's `real_filename` is not allowed the wrapped application is called and
+no later export is tried. -/
+theorem shared_data_first_match (isfile allowed : Str → Bool) (exports : List (Str × Export))
+    (path : Str) :
+    (∀ p, sharedData isfile allowed exports path = some p ↔
+      ∃ pre e post name, exports = pre ++ e :: post ∧
+        (∀ e' ∈ pre, tryExport isfile e'.1 e'.2 path = none) ∧
+        tryExport isfile e.1 e.2 path = some (name, p) ∧ allowed name = true) ∧
+    (sharedData isfile allowed exports path = none ↔
+      (∀ e ∈ exports, tryExport isfile e.1 e.2 path = none) ∨
+      ∃ r, findExport isfile exports path = some r ∧ allowed r.1 = false) := by
+  refine ⟨?_, ?_⟩
+  · intro p
+    unfold sharedData
+    cases hf : findExport isfile exports path with
+    | none =>
+      simp only [false_iff, reduceCtorEq]
+      rintro ⟨pre, e, post, name, heq, hpre, he, _⟩
+      have := (findExport_eq_some_iff isfile exports path (name, p)).mpr ⟨pre, e, post, heq, hpre, he⟩
+      rw [hf] at this; cases this
+    | some r =>
+      obtain ⟨name, f⟩ := r
+      simp only
+      constructor
+      · intro h
+        split at h
+        · rename_i ha
           cases h
-          split at hsub
-          · obtain ⟨h1, h2⟩ := hload ex _ p hsub
-            exact ⟨(search, ex), by simp, h2, Or.inr h1⟩
-          · cases hsub
-        · obtain ⟨e, he, h1⟩ := ih path p h
-          exact ⟨e, List.mem_cons_of_mem _ he, h1⟩
+          obtain ⟨pre, e, post, heq, hpre, he⟩ := (findExport_eq_some_iff isfile exports path (name, p)).mp hf
+          exact ⟨pre, e, post, name, heq, hpre, he, ha⟩
+        · cases h
+      · rintro ⟨pre, e, post, name', heq, hpre, he, ha⟩
+        have := (findExport_eq_some_iff isfile exports path (name', p)).mpr ⟨pre, e, post, heq, hpre, he⟩
+        rw [hf] at this
+        cases this
+        simp [ha]
+  · unfold sharedData
+    cases hf : findExport isfile exports path with
+    | none =>
+      simp only [true_iff]
+      exact Or.inl ((findExport_eq_none_iff isfile exports path).mp hf)
+    | some r =>
+      obtain ⟨name, f⟩ := r
+      simp only
+      constructor
+      · intro h
+        split at h
+        · cases h
+        · rename_i ha
+          exact Or.inr ⟨(name, f), rfl, by simpa using ha⟩
+      · rintro (h | ⟨r, hr, ha⟩)
+        · have := (findExport_eq_none_iff isfile exports path).mpr h
+          rw [hf] at this; cases this
+        · cases hr
+          simp [ha]
+
+/-- an earlier export that matches but has no such file lets a later export answer -/
+example : sharedData (fun p => p == "/b/x".toList) (fun _ => true)
+    [("/s".toList, .dir "/a".toList), ("/s".toList, .dir "/b".toList)] "/s/x".toList = some "/b/x".toList := by decide
+/-- list order, not prefix length, decides -/
+example : sharedData (fun _ => true) (fun _ => true)
+    [("/s".toList, .dir "/a".toList), ("/s/t".toList, .dir "/b".toList)] "/s/t/x".toList = some "/a/t/x".toList := by decide
+/-- a disallowed winner ends the search -/
+example : sharedData (fun _ => true) (fun n => n != "x".toList)
+    [("/s".toList, .dir "/a".toList), ("/s".toList, .file "/b/y".toList)] "/s/x".toList = none := by decide
+
+/-- **`disallow` only ever removes files**: whatever is served passed `is_allowed`, and for directory
+and single-file exports the name tested is the base name of the very file that is opened. -/
+theorem shared_data_disallow (isfile allowed : Str → Bool) (exports : List (Str × Export)) (path p : Str)
+    (h : sharedData isfile allowed exports path = some p) :
+    sharedData isfile (fun _ => true) exports path = some p ∧
+    ((∀ e ∈ exports, ∀ pd pp, e.2 ≠ .pkg pd pp) → allowed (basename p) = true) := by
+  unfold sharedData at h ⊢
+  cases hf : findExport isfile exports path with
+  | none => simp [hf] at h
+  | some r =>
+    obtain ⟨name, f⟩ := r
+    simp only [hf] at h ⊢
+    split at h
+    · rename_i ha
+      cases h
+      refine ⟨by simp, ?_⟩
+      intro hex
+      obtain ⟨pre, e, post, rfl, _, he⟩ := (findExport_eq_some_iff isfile exports path (name, p)).mp hf
+      have := tryExport_name_dir_file he (hex e (by simp))
+      simp only at this
+      rw [← this]; exact ha
+    · cases h
+
+example : sharedData (fun _ => true) (fun n => n != "x.py".toList) [("/s".toList, .dir "/a".toList)]
+    "/s/y.css".toList = some "/a/y.css".toList := by decide
+
+/-- **Which loader an export value gets** (`SharedDataMiddleware.__init__`): a tuple is a package
+export; a `str` that is a regular file when the middleware is built is a single-file export,
+otherwise a directory export; the order of the exports is kept. -/
+theorem shared_data_exports_init (isfileInit : Str → Bool) (specs : List (Str × ExportSpec)) :
+    (mkExports isfileInit specs).map (·.1) = specs.map (·.1) ∧
+    ∀ k v, (k, v) ∈ specs →
+      (k, match v with
+          | .path s => if isfileInit s then Export.file s else Export.dir s
+          | .package pd pp => Export.pkg pd pp) ∈ mkExports isfileInit specs := by
+  refine ⟨by simp [mkExports, Function.comp_def], ?_⟩
+  intro k v h
+  unfold mkExports
+  refine List.mem_map.mpr ⟨(k, v), h, ?_⟩
+  cases v <;> rfl
+
+/-- **`_root_path`, when absolute or empty** (what Flask passes is `app.root_path`, an absolute
+path): the file `send_file` opens is the file that was tested with `os.path.isfile`, it is
+`join(_root_path, safe_join(directory, path))`, and it lies inside `join(_root_path, directory)`;
+without `_root_path` the tested and the opened path are the `safe_join` result itself. -/
+theorem send_from_directory_root_partial (isfile : Str → Bool) (root : Option Str) (d path tested opened : Str)
+    (hroot : ∀ r, root = some r → r = [] ∨ isabs r = true)
+    (h : sendFromDirectoryRoot isfile root d path = some (tested, opened)) :
+    opened = tested ∧ isfile tested = true ∧
+    ∃ p, safeJoin d [path] = some p ∧
+      match root with
+      | none => tested = p ∧ Inside d p
+      | some r => tested = join r [p] ∧ Inside (join r [if d = [] then dot else d]) tested := by
+  unfold sendFromDirectoryRoot at h
+  cases hj : safeJoin d [path] with
+  | none => simp [hj] at h
+  | some p =>
+    simp only [hj] at h
+    split at h
+    · rename_i hf
+      simp only [Option.some.injEq, Prod.mk.injEq] at h
+      obtain ⟨rfl, rfl⟩ := h
+      cases root with
+      | none => exact ⟨rfl, hf, p, rfl, rfl, safeJoin_inside hj⟩
+      | some r =>
+        refine ⟨?_, hf, p, rfl, rfl, safeJoinWith_inside_under hj r⟩
+        simp only [sendFileOpened, sfdChecked, join, List.foldl_cons, List.foldl_nil]
+        exact joinStep_abs_idem (hroot r rfl) p
+    · cases h
+
+example : sendFromDirectoryRoot (fun _ => true) (some "/app".toList) "static".toList "a/../x.css".toList
+    = some ("/app/static/x.css".toList, "/app/static/x.css".toList) := by decide
+example : ∀ r, some "/app".toList = some r → r = [] ∨ isabs r = true := by
+  intro r h; cases h; right; decide
+example : sendFromDirectoryRoot (fun _ => true) none "static".toList "x.css".toList
+    = some ("static/x.css".toList, "static/x.css".toList) := by decide
+
+/-- **Finding F14b: a relative `_root_path` is joined twice.** `send_from_directory` joins
+`_root_path` onto the `safe_join` result, tests *that* path with `os.path.isfile`, and passes it on
+to `send_file` together with the same `_root_path`, which joins it again: for `_root_path="r"`,
+`directory="d"`, `path="x.txt"` the file tested is `r/d/x.txt` but the file opened is
+`r/r/d/x.txt` - not the tested file and not inside `r/d`. (So the hypothesis of
+`send_from_directory_root_partial` is necessary.) -/
+theorem send_from_directory_root_full_false :
+    ¬ ∀ (isfile : Str → Bool) (root : Option Str) (d path tested opened : Str),
+      sendFromDirectoryRoot isfile root d path = some (tested, opened) → opened = tested := by
+  intro h
+  have := h (fun _ => true) (some "r".toList) "d".toList "x.txt".toList "r/d/x.txt".toList
+    "r/r/d/x.txt".toList (by decide)
+  revert this
+  decide
+
+/-- the opened file of the F14b witness is outside the directory the request was confined to -/
+example : ¬ (segments (normpath "r/d".toList) <+: segments (normpath "r/r/d/x.txt".toList)) := by decide
 
 /-- **Nothing decodes or rewrites the path behind the containment check** (AST facts, every run):
 in `send_from_directory`, in the directory loader and in the package loader of
@@ -184,16 +377,105 @@ theorem glue_keeps_checked_path :
         "posixpath.basename", "reader.open_resource", "resource.getvalue", "safe_join"]) := by
   decide
 
-example : sendFromDirectory (fun _ => true) "/srv/root".toList "a/../b.txt".toList
-    = some "/srv/root/b.txt".toList := by decide
-example : sendFromDirectory (fun _ => true) "/srv/root".toList "../secret".toList = none := by decide
-example : sharedData (fun p => p == "/srv/root/x.css".toList) [("/static".toList, .dir "/srv/root".toList)]
-    "/static/x.css".toList = some "/srv/root/x.css".toList := by decide
-example : sharedData (fun _ => true) [("/static".toList, .dir "/srv/root".toList)]
-    "/static/../../etc/passwd".toList = none := by decide
-/-- backslashes are ordinary characters on POSIX: the package loader hands them through unchanged -/
-example : sharedData (fun _ => true) [("/static".toList, .pkg "static".toList)]
-    "/static/..\\..\\secret.txt".toList = some "static/..\\..\\secret.txt".toList := by decide
+/-- **The loaders test and open the path they joined** (AST facts, every run): the directory loader
+tests `os.path.isfile(path)` and returns `basename(path)` with `self._opener(path)`; `_opener` opens
+its argument; the package loader opens `reader.open_resource(path)`; the file loader is
+`lambda x: (basename(filename), self._opener(filename))` whatever `x` is. -/
+theorem glue_loaders_shape :
+    Gen.StaticGlue.dirLoaderTests = ["path is not None", "path is None", "os.path.isfile(path)"] ∧
+    Gen.StaticGlue.dirLoaderReturns =
+      ["None | None", "os.path.basename(path) | self._opener(path)", "None | None"] ∧
+    Gen.StaticGlue.openerOpenArgs = ["filename, 'rb'"] ∧
+    Gen.StaticGlue.pkgLoaderTests = ["path is None", "path is None", "isinstance(resource, BytesIO)"] ∧
+    Gen.StaticGlue.pkgOpenArgs = ["path"] ∧
+    Gen.StaticGlue.pkgLoaderReturns =
+      ["None | None", "None | None", "None | None", "basename | <lambda>", "basename | <lambda>"] ∧
+    Gen.StaticGlue.fileLoaderReturns = ["lambda x: (os.path.basename(filename), self._opener(filename))"] := by
+  decide
+
+/-- **The export loop of `SharedDataMiddleware.__call__` has the shape `tryExport` / `findExport` /
+`sharedData` model** (AST facts, every run): the request path is `get_path_info(environ)` and is
+never re-assigned (no normalisation, no decoding); the loop runs over `self.exports` in order;
+its tests are `search_path == path` → `loader(None)`, then `search_path += "/"` unless it ends with
+a slash, then `path.startswith(search_path)` → `loader(path[len(search_path):])` (slicing, not
+`lstrip`/`replace`), each followed by `break` when a file loader came back; nothing else is called
+in the loop; afterwards the only gate is `file_loader is None or not self.is_allowed(real_filename)`.
+`__init__`: tuple → package loader, `str` → file loader if `os.path.isfile(value)` else directory
+loader; a mapping contributes `exports.items()`; `disallow` installs `not fnmatch(x, disallow)`. -/
+theorem glue_export_loop_shape :
+    Gen.StaticGlue.callPathAssigns = ["get_path_info(environ)"] ∧
+    Gen.StaticGlue.callSearchAssigns = ["search_path += '/'"] ∧
+    Gen.StaticGlue.callLoopHead = ["(search_path, loader)", "self.exports"] ∧
+    Gen.StaticGlue.callLoopTests = ["search_path == path", "file_loader is not None",
+      "not search_path.endswith('/')", "path.startswith(search_path)", "file_loader is not None"] ∧
+    Gen.StaticGlue.callLoaderArgs = ["None", "path[len(search_path):]"] ∧
+    Gen.StaticGlue.callLoopCalls = ["len", "loader", "path.startswith", "search_path.endswith"] ∧
+    Gen.StaticGlue.callLoopBreaks = 2 ∧ Gen.StaticGlue.callLoopContinues = 0 ∧
+    Gen.StaticGlue.callGate = ["file_loader is None or not self.is_allowed(real_filename)"] ∧
+    Gen.StaticGlue.initLoopHead = ["(key, value)", "exports"] ∧
+    Gen.StaticGlue.initTests = ["isinstance(value, tuple)", "isinstance(value, str)", "os.path.isfile(value)"] ∧
+    Gen.StaticGlue.initLoaderAssigns = ["self.get_package_loader(*value)", "self.get_file_loader(value)",
+      "self.get_directory_loader(value)"] ∧
+    Gen.StaticGlue.initExportsAssigns = ["exports.items()"] ∧
+    Gen.StaticGlue.initAppendArgs = ["(key, loader)"] ∧
+    Gen.StaticGlue.initAllowed = ["lambda x: not fnmatch(x, disallow)"] := by
+  decide
+
+/-- **`send_from_directory` / `send_file` have the shape `sendFromDirectoryRoot` models** (AST facts,
+every run): refusal → NotFound, then the `_root_path` join, then the `os.path.isfile` test, then
+`send_file(path_str, environ, **kwargs)` (so `_root_path` travels on); `send_file` opens
+`os.path.join(_root_path, path_or_file)` or `os.path.abspath(path_or_file)`. -/
+theorem glue_send_file_shape :
+    Gen.StaticGlue.sfdTests = ["path_str is None", "'_root_path' in kwargs", "not os.path.isfile(path_str)"] ∧
+    Gen.StaticGlue.sfdSendFileArgs = ["path_str, environ, **kwargs"] ∧
+    Gen.StaticGlue.sendFilePathAssigns = ["path: str | None = None",
+      "os.path.join(_root_path, path_or_file)", "os.path.abspath(path_or_file)"] ∧
+    Gen.StaticGlue.sendFileOpenArgs = ["path, 'rb'"] := by
+  decide
+
+/-- **Constants the hand models hard-code, against the source** (regenerated every run):
+`posixpath.sep/curdir/pardir` are the model's `/`, `.`, `..`; `_os_alt_seps` is `os.sep`,
+`os.path.altsep` without `None` and `/`, and the separators `secure_filename` replaces are the
+truthy ones of the same pair; the string literals of `safe_join` are exactly
+`""`, `"."`, `".."`, `"../"`, `"/"` and those of `secure_filename` exactly
+`""`, `" "`, `"."`, `"._"`, `"NFKD"`, `"_"`, `"ascii"`, `"ignore"`, `"nt"`. -/
+theorem model_constants_match_source :
+    Gen.Paths.posixSep.toList = [sep] ∧ Gen.Paths.posixCurdir.toList = dot ∧
+    Gen.Paths.posixPardir.toList = dotdot ∧
+    Gen.Paths.osAltSeps.map String.singleton =
+      (Gen.Paths.osSep :: Gen.Paths.osAltsep.toList).filter (· != "/") ∧
+    Gen.Paths.osSeps.map String.singleton = Gen.Paths.osSep :: Gen.Paths.osAltsep.toList ∧
+    Gen.Paths.safeJoinLiterals = ["", ".", "..", "../", "/"] ∧
+    Gen.Paths.secureFilenameLiterals = ["", " ", ".", "._", "NFKD", "_", "ascii", "ignore", "nt"] ∧
+    Gen.Paths.stripChars = ['.', '_'] ∧ Gen.Paths.joinChars = ['_'] := by
+  decide
+
+/-- **`_filename_ascii_strip_re` is the negated class `[A-Za-z0-9_.-]`**: the pattern text, its flags,
+and the live regex evaluated on all 128 ASCII code points (kept = exactly `[A-Za-z0-9_.-]`) and on
+every code point above (all removed); no `str.isspace` character and no separator survives it. -/
+theorem strip_regex_class :
+    Gen.Paths.stripRePattern = "[^A-Za-z0-9_.-]" ∧ Gen.Paths.stripReFlags = 32 ∧
+    Gen.Paths.stripRe.length = 128 ∧
+    (∀ n, n < 128 → (!tbl Gen.Paths.stripRe n) = allowedNat n) ∧
+    Gen.Paths.stripReHigh = true ∧
+    (∀ n ∈ Gen.Paths.pySpaces, allowedNat n = false) ∧
+    allowed '/' = false ∧ allowed '\\' = false :=
+  ⟨by decide, by decide, by decide +kernel, strip_table, strip_high, spaces_not_allowed, by decide, by decide⟩
+
+/-- **`_windows_device_files` and `str.upper`**: the device table is the 24 names the model's
+`isDevice` consults, and the model's `upperChar` is `str.upper` on all 128 ASCII characters. -/
+theorem windows_device_table :
+    Gen.Paths.windowsDeviceFiles = ["AUX", "COM0", "COM1", "COM2", "COM3", "COM4", "COM5", "COM6",
+      "COM7", "COM8", "COM9", "CON", "LPT0", "LPT1", "LPT2", "LPT3", "LPT4", "LPT5", "LPT6", "LPT7",
+      "LPT8", "LPT9", "NUL", "PRN"] ∧
+    Gen.Paths.upperAscii.length = 128 ∧
+    ∀ n, n < 128 → (upperChar (Char.ofNat n)).toNat = Gen.Paths.upperAscii.getD n 0 := by
+  refine ⟨by decide, by decide +kernel, by decide +kernel⟩
+
+/-- **The one law assumed of the opaque NFKD normalisation** (hypothesis `hn` of the idempotence
+theorems: identity on ASCII text) holds for the live `unicodedata.normalize("NFKD", ·)` on every
+ASCII string of length one and two (evaluated at generation time, every run). -/
+theorem nfkd_law_checked : Gen.Paths.nfkdAsciiIdentity = true := by decide
 
 /-- Sanitised names use only `[A-Za-z0-9_.-]` (so they are ASCII), whatever the input and whatever
 the Unicode normalisation did before. -/
@@ -235,5 +517,65 @@ theorem secure_filename_idempotent (nfkd : Str → Str)
 
 example : ∀ t : Str, (∀ c ∈ t, c.toNat < 128) → id t = t := fun _ _ => rfl
 example : secureFilename id " ../.. /etc/pass wd\t$._".toList = "etc_pass_wd".toList := by decide
+
+/-- The platform-parametric model (`os.sep`/`os.path.altsep` as `seps`, `os.name == "nt"` as `nt`)
+instantiated with the generating platform's values is the model the theorems above, the
+correspondence stream `secure-filename` and Props/C14T are about. -/
+theorem secure_filename_here (nfkd : Str → Str) (s : Str) :
+    secureFilenameWith Gen.Paths.osSeps false nfkd s = secureFilename nfkd s :=
+  secureAsciiWith_here _
+
+/-- **What the property demands of `secure_filename`, on every platform** - whatever `os.sep` /
+`os.path.altsep` are and whether or not the Windows device-file branch (`os.name == "nt"`) runs:
+the result uses only `[A-Za-z0-9_.-]` (hence is ASCII, contains no `/`, no `\`, no whitespace) and
+never starts with a dot. (The property says nothing about device names; with the branch on, the
+result may start with `_`.) -/
+theorem secure_filename_any_platform (seps : List Char) (nt : Bool) (nfkd : Str → Str) (s : Str) :
+    (∀ c ∈ secureFilenameWith seps nt nfkd s,
+      allowed c = true ∧ c ≠ '/' ∧ c ≠ '\\' ∧ isSpace c = false ∧ c.toNat < 128) ∧
+    (secureFilenameWith seps nt nfkd s).head? ≠ some '.' := by
+  refine ⟨?_, secureAsciiWith_head _ _ _⟩
+  intro c hc
+  have h := secureAsciiWith_allowed seps nt _ c hc
+  refine ⟨h, ?_, ?_, allowed_not_space h, allowedNat_lt h⟩
+  · rintro rfl; exact absurd h (by decide)
+  · rintro rfl; exact absurd h (by decide)
+
+example : secureFilenameWith ['\\', '/'] true id "..\\CON.txt".toList = "_CON.txt".toList := by decide
+
+/-- **Idempotent on every platform**, incl. Windows (`_CON` strips back to `CON`, which is prefixed
+again), provided no separator is one of `[A-Za-z0-9_.-]` (true for `/` and `\`) and the opaque NFKD
+normalisation leaves ASCII text alone. -/
+theorem secure_filename_idempotent_any_platform (seps : List Char) (nt : Bool) (nfkd : Str → Str)
+    (hs : ∀ c ∈ seps, allowed c = false)
+    (hn : ∀ t : Str, (∀ c ∈ t, c.toNat < 128) → nfkd t = t) (s : Str) :
+    secureFilenameWith seps nt nfkd (secureFilenameWith seps nt nfkd s) = secureFilenameWith seps nt nfkd s := by
+  have hascii : ∀ c ∈ secureFilenameWith seps nt nfkd s, c.toNat < 128 :=
+    fun c hc => ((secure_filename_any_platform seps nt nfkd s).1 c hc).2.2.2.2
+  have h1 : nfkd (secureFilenameWith seps nt nfkd s) = secureFilenameWith seps nt nfkd s := hn _ hascii
+  have h2 : asciiIgnore (secureFilenameWith seps nt nfkd s) = secureFilenameWith seps nt nfkd s := by
+    apply List.filter_eq_self.mpr
+    intro c hc; simpa using hascii c hc
+  show secureAsciiWith seps nt (asciiIgnore (nfkd (secureFilenameWith seps nt nfkd s))) = _
+  rw [h1, h2]
+  exact secureAsciiWith_idem hs nt _
+
+example : ∀ c ∈ ['\\', '/'], allowed c = false := by decide
+example : secureFilenameWith ['\\', '/'] true id "_CON.txt".toList = "_CON.txt".toList := by decide
+/-- the hypothesis on the separators is not an artefact: were `_` a separator, `a $ b` would go to
+`a__b` and then to `a_b` -/
+example : secureFilenameWith ['_'] false id "a $ b".toList = "a__b".toList ∧
+    secureFilenameWith ['_'] false id "a__b".toList = "a_b".toList := by decide
+
+/-- **What the code does about Windows device names** (not demanded by the property): with the
+branch on, the result is never a name whose part before the first dot, upper-cased, is in
+`_windows_device_files` (`CON`, `nul.txt`, `Com1.tar.gz` ... get a `_` prefix). With the branch off
+(every non-Windows host) such names are returned unchanged. -/
+theorem secure_filename_nt_not_device (seps : List Char) (nfkd : Str → Str) (s : Str) :
+    isDevice (secureFilenameWith seps true nfkd s) = false ∨ secureFilenameWith seps true nfkd s = [] :=
+  secureAsciiWith_nt_not_device _ _
+
+example : secureFilenameWith ['/'] false id "nul.txt".toList = "nul.txt".toList := by decide
+example : isDevice "nul.txt".toList = true := by decide
 
 end Wz.Props.C14
